@@ -49,6 +49,38 @@ pub enum ProbeCase {
         #[serde(default)]
         exchange: Option<u8>,
     },
+    /// one diagram over 20..100 variables made of a literal chain (and / or / xor, skipped variables) under a selector:
+    /// children that differ in depth by more than a machine word has bits, counts beyond 2^64 (which saturate)
+    Deep {
+        vars: u8,
+        spec: Vec<(u8, bool, bool)>,
+        memo_first: bool,
+        /// the diagram is built on a store that another diagram was exported from / imported into first
+        #[serde(default)]
+        reimport: bool,
+    },
+}
+
+/// depth-based counts of a diagram over the public node table: (models, counter-models, depth) with the shallower child
+/// scaled by 2^(depth difference), exact in u128 (depth <= 110), and the two path counts
+fn deep_counts(bdd: &adf_bdd::obdd::Bdd, t: adf_bdd::datatypes::Term, memo: &mut std::collections::HashMap<usize, (u128, u128, u32, u128, u128)>) -> (u128, u128, u32, u128, u128) {
+    use adf_bdd::datatypes::Term;
+    if t == Term::TOP {
+        return (1, 0, 0, 1, 0);
+    }
+    if t == Term::BOT {
+        return (0, 1, 0, 0, 1);
+    }
+    if let Some(r) = memo.get(&t.value()) {
+        return *r;
+    }
+    let n = bdd.nodes[t.value()];
+    let l = deep_counts(bdd, n.lo(), memo);
+    let h = deep_counts(bdd, n.hi(), memo);
+    let d = l.2.max(h.2);
+    let r = ((l.0 << (d - l.2)) + (h.0 << (d - h.2)), (l.1 << (d - l.2)) + (h.1 << (d - h.2)), d + 1, l.3 + h.3, l.4 + h.4);
+    memo.insert(t.value(), r);
+    r
 }
 
 fn hex(t: &[u64]) -> String {
@@ -170,6 +202,86 @@ pub fn run(case: &ProbeCase, memo_models_valid: bool) -> Result<Value, String> {
             drop(listener);
             let export = serde_json::to_string(&sh.bdd).map_err(|e| e.to_string())?;
             Ok(json!({"steps": steps, "handles": per_handle, "nodes": sh.bdd.nodes.len(), "export": export}))
+        }
+        ProbeCase::Deep { vars, spec, memo_first, reimport } => {
+            use adf_bdd::datatypes::Term;
+            use adf_bdd::obdd::Bdd;
+            let v = (*vars as usize).clamp(4, 100);
+            let mut bdd = Bdd::new();
+            let mut acc: Option<Term> = None;
+            let mut handles = Vec::new();
+            // at most ten exclusive-ors: the naive procedures of the builds without counting features walk every path
+            let mut xors = 0;
+            for i in (1..v).rev() {
+                let (mut con, pol, skip) = spec[i % spec.len()];
+                if con % 3 == 2 {
+                    xors += 1;
+                    if xors > 10 {
+                        con = i as u8 % 2;
+                    }
+                }
+                if skip && i != 1 {
+                    continue;
+                }
+                let x = bdd.variable(Var(i));
+                let lit = if pol { x } else { bdd.not(x) };
+                acc = Some(match acc {
+                    None => lit,
+                    Some(a) => match con % 3 {
+                        0 => bdd.and(lit, a),
+                        1 => bdd.or(lit, a),
+                        _ => bdd.xor(lit, a),
+                    },
+                });
+                if i % 16 == 1 {
+                    handles.push(acc.unwrap());
+                }
+            }
+            let top = acc.unwrap_or(Term::TOP);
+            let sel = bdd.variable(Var(0));
+            let g = bdd.and(sel, top);
+            let g2 = bdd.or(sel, top);
+            handles.extend([top, g, g2]);
+            if *reimport {
+                let js = serde_json::to_string(&bdd).map_err(|e| e.to_string())?;
+                let mut b: Bdd = serde_json::from_str(&js).map_err(|e| e.to_string())?;
+                b.fix_import();
+                bdd = b;
+            }
+            let clamp = |x: u128| -> u64 { x.min(usize::MAX as u128) as u64 };
+            let mut memo = std::collections::HashMap::new();
+            let mut out = Vec::new();
+            for h in &handles {
+                let want = deep_counts(&bdd, *h, &mut memo);
+                let order: &[bool] = if *memo_first { &[true, false] } else { &[false, true] };
+                for &memoised in order {
+                    if memoised && !memo_models_valid {
+                        continue;
+                    }
+                    let m = bdd.models(*h, memoised);
+                    if (m.models as u64, m.cmodels as u64) != (clamp(want.0), clamp(want.1)) {
+                        return Err(format!(
+                            "models({}, memoised={memoised}) = ({}, {}) for a diagram of depth {} with {} models and {} counter-models (counts beyond a machine word saturate at {})",
+                            h.value(), m.models, m.cmodels, want.2, want.0, want.1, usize::MAX
+                        ));
+                    }
+                }
+                for memoised in [false, true] {
+                    let p = bdd.paths(*h, memoised);
+                    if (p.models as u64, p.cmodels as u64) != (clamp(want.3), clamp(want.4)) {
+                        return Err(format!("paths({}, memoised={memoised}) = ({}, {}) but the diagram has {} paths to top and {} to bottom", h.value(), p.models, p.cmodels, want.3, want.4));
+                    }
+                }
+                let d = bdd.max_depth(*h);
+                if d != want.2 as usize {
+                    return Err(format!("max_depth({}) = {d}, longest path has {} edges", h.value(), want.2));
+                }
+                let mut deps: Vec<usize> = bdd.var_dependencies(*h).into_iter().map(|v| v.value()).collect();
+                deps.sort();
+                out.push(json!({"models": [clamp(want.0).to_string(), clamp(want.1).to_string()], "paths": [clamp(want.3).to_string(), clamp(want.4).to_string()], "depth": d, "deps": deps}));
+            }
+            let export = serde_json::to_string(&bdd).map_err(|e| e.to_string())?;
+            Ok(json!({"handles": out, "nodes": bdd.nodes.len(), "export": export}))
         }
         ProbeCase::Adf { acs, labels, layout, sort, backend, calls: list, import, .. } => {
             let (text, _) = gen::render(acs, labels, layout);
